@@ -824,6 +824,15 @@ def execute(seed, mode, is_client, wt, n_requests, schedule, with_logger, cfg):
             ev = t.peer.next_event()
     except Exception:
         rep.log.append("peer raised")
+    if rep.closed is not None and not any("peer raised" in x for x in rep.log) and rep.peer_code != rep.closed[0]:
+        # "the transport can still emit its closing packet": on this loss-free pipe the peer's transport must
+        # have been told why (a target whose handshake is not confirmed sends the close in a Handshake packet
+        # too, which a server that already dropped those keys cannot read: the 1-RTT packet is the one that counts)
+        raise Violation("c16.close-not-delivered", "peer-saw:%s" % (
+            "nothing" if rep.peer_code is None else "0x%x" % rep.peer_code),
+            "the HTTP layer closed the connection (%s) and the transport was driven, but the peer's transport %s "
+            "(%s)" % (_close_brief(rep.closed), "never saw a CONNECTION_CLOSE" if rep.peer_code is None else
+                      "reports error 0x%x" % rep.peer_code, tag))
     try:
         for _ in range(12):
             ev = quic.next_event()
